@@ -16,11 +16,14 @@
    lazy-copy bookkeeping (ref = number of handles, no
    handle to a freed block, everything freed at the end)   -> heap_invariant
    case mapping through the tables of String.cpp           -> case_tables_are_ascii
+   every visible byte is an initialised byte 0..255 (so the
+   byte-range half of the domain predicate always holds on
+   reachable states; only NUL-freeness restricts it)        -> values_are_bytes, visible_cells_initialised
    printf: the bytes vsnprintf produced are an input of the operation (modelled as input);
    strstr / strpbrk / strchr are reference functions on NUL-free text (trusted). *)
 From Coq Require Import ZArith List Bool.
 From Common Require Import Words ListAux.
-From Str Require Import StrSpec StrModel StrInv StrFun StrMain.
+From Str Require Import StrSpec StrModel StrInv StrFun StrMain StrWf.
 Import ListNotations.
 
 Theorem string_refines_values : forall ops,
@@ -76,6 +79,17 @@ Print Assumptions heap_invariant_inductive.
 Theorem case_tables_are_ascii : forall c, (lowt c = lower c /\ uppt c = upper c)%Z.
 Proof. exact (fun c => conj (lowt_lower c) (uppt_upper c)). Qed.
 Print Assumptions case_tables_are_ascii.
+
+Theorem values_are_bytes : forall ops s outs, spec_run sinit ops = Some (s, outs) ->
+  Forall (fun v => bytes v = true) (svals s) /\ Forall (fun r => bytes r = true) (sregs s).
+Proof. exact values_are_bytes_thm. Qed.
+Print Assumptions values_are_bytes.
+
+Theorem visible_cells_initialised : forall ops w outs v h, run winit ops = Ok (w, outs) ->
+  nth_error (vars w) v = Some h ->
+  Forall (fun c => exists z, c = Some z /\ (0 <= z < 256)%Z) (h_cells w h).
+Proof. exact visible_cells_initialised_thm. Qed.
+Print Assumptions visible_cells_initialised.
 
 (* ---- non-vacuity ---- *)
 Definition demo : list op :=
